@@ -822,13 +822,13 @@ Qed.
 (* t_get / t_scan (what Keyspace::get / iter do at an instant) first select a super-version: the newest one whose seqno is
    below the instant.  Version seqnos are drawn from the shared counter, so for an instant at or above the counter that is
    the latest version, and the reads are the ones the refinement is stated for. *)
-Definition vb (n : N) (t : tree) : Prop := vers t <> [] /\ v_seq (latest t) < n.
+Definition vb (n : N) (t : tree) : Prop := vers t <> [] /\ v_seq (latest t) <= n.
 Definition VB (d : db) : Prop := forall ks, In ks (d_kss d) -> vb (d_seqno d) (k_tree ks).
 
-Theorem reads_select_latest I t k : vb I t ->
+Theorem reads_select_latest n I t k : vb n t -> n < I ->
   t_get t k I = Some (abs I t k) /\ t_scan t I = Some (scan_ents (v_all t (latest t)) I).
 Proof.
-  intros [NE L]. unfold t_get, t_scan, select_version, abs, rd.
+  intros [NE L0] LI. assert (L : v_seq (latest t) < I) by lia. clear L0 LI. unfold t_get, t_scan, select_version, abs, rd.
   destruct (N.eqb_spec I 0) as [E|_]; [lia|].
   unfold latest in *. destruct (vers t) as [|v0 r]; [congruence|]. cbn [hd find] in *.
   destruct (N.ltb_spec (v_seq v0) I); [|lia]. split; reflexivity.
@@ -837,7 +837,7 @@ Qed.
 Lemma vb_mono n m t : n <= m -> vb n t -> vb m t.
 Proof. intros L [A B]. split; [exact A|lia]. Qed.
 Lemma vb_init n : 0 < n -> vb n tree_init.
-Proof. intros L. split; [discriminate|exact L]. Qed.
+Proof. intros L. split; [discriminate|cbn; lia]. Qed.
 Lemma vb_append n t e : vb n t -> vb n (t_append t e).
 Proof. intros H. exact H. Qed.
 Lemma vb_maint n W t : vb n t -> vb n (vh_maintenance W t).
@@ -854,16 +854,16 @@ Qed.
 Lemma vb_flush n W s t : vb n t -> s < n -> vb n (fst (t_flush W s t)).
 Proof.
   intros H L. unfold t_flush. destruct (v_sealed (latest t)); [exact H|]. destruct (gc_stream _ _ _ _); [exact H|]. cbn [fst].
-  apply vb_maint. split; [discriminate|exact L].
+  apply vb_maint. split; [discriminate|cbn; lia].
 Qed.
 Lemma vb_compact n W s ev f t : vb n t -> s < n -> vb n (t_compact W s ev f t).
 Proof.
-  intros H L. unfold t_compact. destruct (v_tables (latest t)); [exact H|]. apply vb_maint. split; [discriminate|exact L].
+  intros H L. unfold t_compact. destruct (v_tables (latest t)); [exact H|]. apply vb_maint. split; [discriminate|cbn; lia].
 Qed.
 Lemma vb_clear n s t : s < n -> vb n (t_clear s t).
-Proof. intros L. split; [discriminate|exact L]. Qed.
+Proof. intros L. split; [discriminate|cbn; lia]. Qed.
 Lemma vb_register n g ents t : g < n -> vb n (t_register_ingest g ents t).
-Proof. intros L. split; [discriminate|exact L]. Qed.
+Proof. intros L. split; [discriminate|cbn; lia]. Qed.
 
 Lemma VB_set_ks d ks t' n' trk : In ks (d_kss d) -> vb n' t' -> d_seqno d <= n' -> VB d -> VB (upd d n' trk (set_ks d (with_tree ks t'))).
 Proof.
@@ -961,17 +961,17 @@ Proof. intros ks []. Qed.
    at or above the seqno counter (Keyspace::get / iter use SeqNo::MAX) return the reference map's value / the sorted map *)
 Theorem db_reads_refine mode ops I ks k :
   let d := fold_left wstep ops (db_init mode []) in
-  In ks (d_kss d) -> d_seqno d <= I -> kfind (d_kss d) (k_id ks) = Some ks ->
+  In ks (d_kss d) -> d_seqno d < I -> kfind (d_kss d) (k_id ks) = Some ks ->
   t_get (k_tree ks) k I = Some (srun (db_init mode []) ops sempty (k_id ks) k) /\
   exists sc, t_scan (k_tree ks) I = Some sc /\
              Sorted.StronglySorted (fun a b => bytes_ltb (fst a) (fst b) = true) sc /\
              forall k' v, In (k', v) sc <-> srun (db_init mode []) ops sempty (k_id ks) k' = Some v.
 Proof.
-  intros d Iks L KF.
-  assert (V : vb I (k_tree ks)) by (eapply vb_mono; [exact L|apply (run_VB ops _ (VB_init mode [])), Iks]).
+  intros d Iks L0 KF. assert (L : d_seqno d <= I) by lia.
+  assert (V : vb (d_seqno d) (k_tree ks)) by (apply (run_VB ops _ (VB_init mode [])), Iks).
   assert (DI : DInv d) by (apply wrun_dinv, dinv_init).
   assert (AB : forall k', abs I (k_tree ks) k' = srun (db_init mode []) ops sempty (k_id ks) k').
   { intros k'. rewrite <- (db_refines mode ops I (k_id ks) k' L). unfold absd, absk. fold d. rewrite KF. reflexivity. }
-  destruct (reads_select_latest I (k_tree ks) k V) as [G S]. split; [rewrite G, AB; reflexivity|].
+  destruct (reads_select_latest (d_seqno d) I (k_tree ks) k V L0) as [G S]. split; [rewrite G, AB; reflexivity|].
   eexists. split; [exact S|]. split; [apply scan_sorted|]. intros k' v. rewrite <- AB. apply (scan_matches_reads I d ks k' v DI Iks).
 Qed.
